@@ -191,9 +191,7 @@ def check_sequence(rec, rep, R, seq, kind, fn=None, queries=True):
     rec.mon('list_by_iteration')
     try:
         got = list(itertools.islice(r.values(), n + 5))
-    except BaseException as e:  # noqa  (AssertionError is not an Exception subclass issue, but keep KeyboardInterrupt out)
-        if isinstance(e, (KeyboardInterrupt, SystemExit)):
-            raise
+    except Exception as e:  # noqa
         w = dict(w0, exc_type=type(e).__name__)
         rep('list_by_iteration', 'raises', 'list(create_rle(%r).values()) raised %s; runs (datum,stride,repeat)=%r' % (
             seq[:20], type(e).__name__, items[:8]), w, exc=e, known_as='F11-values' if _f11_values(w) else None)
